@@ -148,7 +148,7 @@ func (s *serverSocket) onPacket(header *parser.PacketHeader, eventName string, d
 		}
 
 		for _, handler := range s.eventHandlers.getAll(eventName) {
-			s.onEvent(handler, header, decode, sendAck)
+			s.onEvent(eventName, handler, header, decode, sendAck)
 		}
 	case parser.PacketTypeAck, parser.PacketTypeBinaryAck:
 		s.onAck(header, decode)
@@ -167,6 +167,7 @@ func (s *serverSocket) onDisconnect() {
 }
 
 func (s *serverSocket) onEvent(
+	eventName string,
 	handler *eventHandler,
 	header *parser.PacketHeader,
 	decode parser.Decode,
@@ -189,7 +190,12 @@ func (s *serverSocket) onEvent(
 		return
 	}
 
-	err = s.callMiddlewares(values)
+	// The signature of the middlewares is: func(eventName string, v ...any) error
+	// The name of the event is the 1st argument. It is followed by the arguments of the event.
+	middlewareValues := make([]reflect.Value, 0, len(values)+1)
+	middlewareValues = append(middlewareValues, reflect.ValueOf(eventName))
+	middlewareValues = append(middlewareValues, values...)
+	err = s.callMiddlewares(middlewareValues)
 	if err != nil {
 		s.onError(err)
 		return
